@@ -390,10 +390,14 @@ func checkC17(c *Ctx) {
 	r.Rule("C17.2", "the flow description uses the remote address only under logClientIP", 1)
 	if f := c.fn("C17.2", "cmd/application", "connManager", "handleNewTCPConn"); f != nil {
 		n := 0
-		for _, ci := range callsIn(f, shortIs("RemoteAddr")) {
-			// only the use that flows into a string (the description); getRemoteAsIP takes the conn itself
+		// (the description may be built in a helper of the package: the gate is then read where the call sits;
+		// getRemoteAsIP, which takes the address as an IP for the GeoIP lookup, is not a description)
+		for _, l := range findDeep(f, func(n string, cc *ssa.CallCommon) bool { return shortIs("RemoteAddr")(n, cc) }, 2) {
+			if l.in != f && l.in.Name() == "getRemoteAsIP" {
+				continue
+			}
 			n++
-			r.Check(gatedByLogIP(f, ci.(ssa.Instruction)), "C17.2", "handleNewTCPConn: RemoteAddr() for the flow description only under logClientIP", ci.Pos(), fnName(f), "dominated by logClientIP == true",
+			r.Check(gatedByLogIP(l.in, l.call), "C17.2", "handleNewTCPConn: RemoteAddr() for the flow description only under logClientIP", l.call.Pos(), fnName(l.in), "dominated by logClientIP == true",
 				"the connection description is built from the client's address without the LOG_CLIENT_IP gate: every log line of the connection carries the client address")
 		}
 		if n == 0 {
